@@ -197,7 +197,8 @@ func runC19(c *core.Ctx) {
 		kind string
 		n    int
 	}
-	specs := []spec{{"rsa2048", c.Pick(2, 6)}, {"rsa3072", c.Pick(0, 2)}, {"ecdsa-p224", c.Pick(1, 4)}, {"ecdsa-p256", c.Pick(2, 6)}, {"ecdsa-p384", c.Pick(1, 4)}, {"ecdsa-p521", c.Pick(1, 4)}, {"ed25519", c.Pick(3, 10)}}
+	specs := []spec{{"rsa2048", c.Pick(2, 6)}, {"rsa3072", c.Pick(0, 2)}, {"ecdsa-p224", c.Pick(1, 4)}, {"ecdsa-p256", c.Pick(2, 6)}, {"ecdsa-p384", c.Pick(1, 4)}, {"ecdsa-p521", c.Pick(1, 4)}, {"ed25519", c.Pick(3, 10)},
+		{"ed25519-public-half-begins-with-white-space", 1}, {"ed25519-public-half-ends-with-white-space", 1}, {"ed25519-seed-begins-with-white-space", 1}}
 	okLoads, signOK := int64(0), int64(0)
 	kn := 0
 	seenIDs := map[string]string{}
@@ -711,7 +712,7 @@ func init() {
 	core.Register(&core.Property{
 		ID:    "C19",
 		Level: "exploration",
-		Rule: "freshly generated keys per run (quick: 2 RSA-2048, ECDSA P-224/256x2/384/521, 3 Ed25519; thorough: more, plus RSA-3072) x every PEM encoding each supports (PKCS#8, PKCS#1, SEC1, PKIX, self-signed and CA-issued certificate) x 4 loaders (the reader-based ones fed whole, byte by byte, in halves and in 100-byte pieces) x 8 decorations (plain, surrounding whitespace, leading explanatory text as openssl writes it, CRLF, trailing garbage PEM block, trailing text, trailing PEM block with another valid public key / another key's certificate: the first block is the key): type, default scheme, public-half string, key id (recomputed independently as SHA-256 of the reference canonical description), presence of private half / certificate, equal ids across the forms of one pair and different ids for different keys; sign with the private-loaded key, verify with public/certificate-loaded keys and with crypto/*; public-only keys must not sign; explicit scheme and hash lists, including the absent and the empty list (matching => reflected in id; scheme of another key type => error, and the very next load of the same file - nothing in between - gives the usual identifier); re-use of one Key object for two loads must equal a fresh load; the first key of each kind is also loaded (LoadKeyDefaults, LoadKey) from a named pipe that is written once; before every load an earlier default-loaded key object is modified in place by its owner (later loads must not notice); SVIDDetails.InTotoKey on generated SVID-like pairs (helper built inside the repository module through a build overlay); negatives (empty, text, truncated DER/base64, random DER under 5 labels, encrypted PKCS#8 label, CSR, DSA-like, EC PARAMETERS block without a key, DH/DSA PARAMETERS blocks, integer sequences, a signed revocation list, binary) through all loaders. " +
+		Rule: "freshly generated keys per run (quick: 2 RSA-2048, ECDSA P-224/256x2/384/521, 3 Ed25519 + three Ed25519 keys whose raw public half begins / ends, or whose seed begins, with a byte that is ASCII white space; thorough: more, plus RSA-3072) x every PEM encoding each supports (PKCS#8, PKCS#1, SEC1, PKIX, self-signed and CA-issued certificate) x 4 loaders (the reader-based ones fed whole, byte by byte, in halves and in 100-byte pieces) x 8 decorations (plain, surrounding whitespace, leading explanatory text as openssl writes it, CRLF, trailing garbage PEM block, trailing text, trailing PEM block with another valid public key / another key's certificate: the first block is the key): type, default scheme, public-half string, key id (recomputed independently as SHA-256 of the reference canonical description), presence of private half / certificate, equal ids across the forms of one pair and different ids for different keys; sign with the private-loaded key, verify with public/certificate-loaded keys and with crypto/*; public-only keys must not sign; explicit scheme and hash lists, including the absent and the empty list (matching => reflected in id; scheme of another key type => error, and the very next load of the same file - nothing in between - gives the usual identifier); re-use of one Key object for two loads must equal a fresh load; the first key of each kind is also loaded (LoadKeyDefaults, LoadKey) from a named pipe that is written once; before every load an earlier default-loaded key object is modified in place by its owner (later loads must not notice); SVIDDetails.InTotoKey on generated SVID-like pairs (helper built inside the repository module through a build overlay); negatives (empty, text, truncated DER/base64, random DER under 5 labels, encrypted PKCS#8 label, CSR, DSA-like, EC PARAMETERS block without a key, DH/DSA PARAMETERS blocks, integer sequences, a signed revocation list, binary) through all loaders. " +
 			"non-trivial = a supported encoding parsed or a distinct negative class; distinct = (key kind, encoding, loader, decoration) etc.",
 		Assumptions: []string{"keys come from crypto/rand, so they differ per run; every input of a violation is saved in the replay file", "PEM input with trailing data after the first block may be accepted or refused (not judged), but never yields a wrong key", "PEM labels that contradict the DER content are not judged"},
 		Workers:     func(string) int { return 16 },
